@@ -232,7 +232,7 @@ out:
 
 /* miss: 0 covers exactly, 1 covers with margin, 2 low miss, 3 high miss,
    4 both */
-static void run_r1(int miss, int amount_i, int order, int typei,
+static void run_r1(int miss, int amount_i, int order, int typei, int pk,
 	vf_result *r)
 {
     static const double amount[3] = { 0.05, 0.20, 0.50 };
@@ -267,9 +267,58 @@ static void run_r1(int miss, int amount_i, int order, int typei,
 	    order == 1 ? "standard added before set_frequency_vector" :
 	    "covered band set, standard added, then the band set again",
 	    vnacal_type_to_name(tt[typei]));
+    if (pk != 0)
+	vf_desc(r, "R1 grid of %s %s the calibration band (%.0f %%), call "
+		"order %d, %s 1x1", pk == 1 ? "the vector an unknown starts "
+		"from" : pk == 2 ? "the sigma vector of a parameter "
+		"correlated with SHORT" : pk == 3 ? "the sigma vector of a "
+		"parameter correlated with a covering vector" : "the sigma "
+		"vector of a parameter correlated with an unknown scalar",
+		miss <= 1 ? "covers" : "misses", 100 * a, order,
+		vnacal_type_to_name(tt[typei]));
     vf_errlog_reset(&elog);
     vcp = vnacal_create((vnaerr_error_fn_t *)vf_errfn, &elog);
-    int h = vnacal_make_vector_parameter(vcp, pf, 4, pv);
+    /*
+     * the grid under test belongs to (pk) 0 a vector parameter, 1 an
+     * unknown whose guess is that vector, 2 the sigma vector of a parameter
+     * correlated with SHORT, 3 the sigma vector of a parameter correlated
+     * with a vector that covers the band with margin, 4 the sigma vector of
+     * a parameter correlated with an unknown of a scalar
+     */
+    int h = -1;
+    {
+	static const double sg[4] = { 0.01, 0.02, 0.015, 0.03 };
+	double wf[4] = { 0.3e9, 1.2e9, 2.2e9, 3.0e9 };
+	int hv, hs;
+	switch (pk) {
+	case 0:
+	    h = vnacal_make_vector_parameter(vcp, pf, 4, pv);
+	    break;
+	case 1:
+	    hv = vnacal_make_vector_parameter(vcp, pf, 4, pv);
+	    h = vnacal_make_unknown_parameter(vcp, hv);
+	    break;
+	case 2:
+	    h = vnacal_make_correlated_parameter(vcp, VNACAL_SHORT, pf, 4,
+		    sg);
+	    break;
+	case 3:
+	    hv = vnacal_make_vector_parameter(vcp, wf, 4, pv);
+	    h = vnacal_make_correlated_parameter(vcp, hv, pf, 4, sg);
+	    break;
+	default:
+	    hs = vnacal_make_scalar_parameter(vcp, -0.95 + 0.02 * I);
+	    hv = vnacal_make_unknown_parameter(vcp, hs);
+	    h = vnacal_make_correlated_parameter(vcp, hv, pf, 4, sg);
+	    break;
+	}
+    }
+    if (h < 0) {
+	vf_fail(r, "r1:setup", "parameter kind %d could not be made: %s", pk,
+		elog.count ? elog.msg[0] : "");
+	vnacal_free(vcp);
+	return;
+    }
     vnp = vnacal_new_alloc(vcp, tt[typei], 1, 1, 3);
     int rc1, rc2;
     if (order == 0) {
@@ -309,7 +358,7 @@ static void run_r1(int miss, int amount_i, int order, int typei,
 		elog.count ? elog.msg[0] : "");
     }
     r->nontrivial = 1;
-    vf_outcome(r, "R1 %s", must_refuse ? "refused" : "accepted");
+    vf_outcome(r, "R1 kind %d %s", pk, must_refuse ? "refused" : "accepted");
     vnacal_free(vcp);
 }
 
@@ -616,7 +665,7 @@ out:
 
 #define N_R0 (7 * NSPACING * NFUNC)
 #define NGRIDN 6
-#define N_R1 (5 * 3 * 3 * 2)
+#define N_R1 (5 * 3 * 3 * 2 * 5)
 static int n_r2(int tier) { return 8 * 2 * (tier ? 3 : 1); }
 #define N_R3 (NGRIDN * NSPACING * 2 * 2 * 4)
 #define N_R4 (NGRIDN * NSPACING * 2 * 3)
@@ -637,10 +686,11 @@ static void run(int tier, long idx, vf_result *r)
 	int sp = vf_digit(&idx, NSPACING);
 	run_r0((int)idx + 1, sp, fn, r);
     } else if ((idx -= N_R0) < N_R1) {
+	int pk = vf_digit(&idx, 5);
 	int typei = vf_digit(&idx, 2);
 	int order = vf_digit(&idx, 3);
 	int am = vf_digit(&idx, 3);
-	run_r1((int)idx, am, order, typei, r);
+	run_r1((int)idx, am, order, typei, pk, r);
     } else if ((idx -= N_R1) < n_r2(tier)) {
 	int typei = vf_digit(&idx, 8);
 	int nfi = vf_digit(&idx, 2);
